@@ -496,6 +496,119 @@ Proof.
 Qed.
 
 (* ------------------------------------------------------------------------------------------ *)
+(** * regexp-fold: successive matches *)
+
+Lemma LRat_skip d : forall s r p x y, (d <= length s)%nat ->
+  LRat r (lastc p (firstn d s)) (skipn d s) x y -> LRat r p s (d + x) (d + y).
+Proof.
+  induction d as [|d IH]; intros s r p x y Hd H.
+  - exact H.
+  - destruct s as [|c s]; [cbn [length] in Hd; lia|].
+    cbn [firstn skipn] in H. rewrite lastc_cons in H. cbn [length] in Hd.
+    apply IH in H; [|lia]. cbn [Nat.add]. apply LRat_S_S. exact H.
+Qed.
+
+Lemma fold_from_sound fuel : forall s r p i l, fold_from fuel r p s i = Some l ->
+  Forall (fun ab => exists x y, fst ab = (i + x)%nat /\ snd ab = (i + y)%nat /\ LRat r p s x y) l.
+Proof.
+  induction fuel as [|fuel IH]; intros s r p i l H; destruct s as [|c s]; cbn [fold_from] in H;
+    try (injection H as <-; constructor); try discriminate.
+  pose proof (search_from_spec (c :: s) r p i) as HS.
+  destruct (search_from r p (c :: s) i) as [[a b]|]; [|injection H as <-; constructor].
+  destruct HS as (x & y & -> & -> & HL & _).
+  set (d := if ((i + y) =? i)%nat then 1%nat else (i + y - i)%nat) in *.
+  destruct (fold_from fuel r (lastc p (firstn d (c :: s))) (skipn d (c :: s)) (i + d)) as [l'|] eqn:E;
+    [|discriminate]. cbn [option_map] in H. injection H as <-.
+  assert (Hd : (d <= length (c :: s))%nat).
+  { subst d. destruct (Nat.eqb_spec (i + y) i); [cbn [length]; lia|]. destruct HL as [HL _]. lia. }
+  constructor.
+  - exists x, y. cbn [fst snd]. auto.
+  - apply IH in E. eapply Forall_impl; [|exact E]. intros [a b] (x' & y' & Ha & Hb & HL').
+    cbn [fst snd] in *. exists (d + x')%nat, (d + y')%nat. split; [lia|]. split; [lia|].
+    apply LRat_skip; assumption.
+Qed.
+
+Lemma fold_from_total fuel : forall s r p i, (length s <= fuel)%nat -> fold_from fuel r p s i <> None.
+Proof.
+  induction fuel as [|fuel IH]; intros s r p i Hl; destruct s as [|c s]; cbn [fold_from];
+    try discriminate; [cbn [length] in Hl; lia|].
+  pose proof (search_from_spec (c :: s) r p i) as HS.
+  destruct (search_from r p (c :: s) i) as [[a b]|]; [|discriminate].
+  destruct HS as (x & y & -> & -> & HL & _).
+  set (d := if ((i + y) =? i)%nat then 1%nat else (i + y - i)%nat).
+  assert (Hd : (1 <= d)%nat) by (subst d; destruct (Nat.eqb_spec (i + y) i); lia).
+  specialize (IH (skipn d (c :: s)) r (lastc p (firstn d (c :: s))) (i + d)%nat).
+  destruct (fold_from fuel r (lastc p (firstn d (c :: s))) (skipn d (c :: s)) (i + d)); [discriminate|].
+  exfalso. apply IH; [|reflexivity]. rewrite skipn_length. cbn [length] in *. lia.
+Qed.
+
+Theorem fold_spans_spec r s :
+  exists l, fold_spans r s = Some l /\
+            Forall (fun ab => in_lang false r s (fst ab) (snd ab)) l /\
+            (s <> [] -> hd_error l = search_span r s).
+Proof.
+  unfold fold_spans. destruct (fold_from (length s) (desugar false r) None s 0) as [l|] eqn:E.
+  - exists l. split; [reflexivity|]. split.
+    + apply fold_from_sound in E. eapply Forall_impl; [|exact E].
+      intros [a b] (x & y & Ha & Hb & HL). cbn [fst snd Nat.add] in *. subst. apply in_lang_LRat. exact HL.
+    + intros Hne. destruct s as [|c s]; [congruence|]. unfold search_span. cbn [length fold_from] in E.
+      destruct (search_from (desugar false r) None (c :: s) 0) as [[a b]|]; [|injection E as <-; reflexivity].
+      destruct (fold_from (length s) (desugar false r) _ _ _); [|discriminate].
+      cbn [option_map] in E. injection E as <-. reflexivity.
+  - exfalso. eapply fold_from_total; [|exact E]. lia.
+Qed.
+
+(* ------------------------------------------------------------------------------------------ *)
+(** * Sanity of the SPEC: without anchors the language ignores the context; case-insensitive comparison *)
+
+Lemma LStar_ctx (P : lang) : (forall p s n p' n', P p s n -> P p' s n') ->
+  forall p s n, LStar P p s n -> forall p' n', LStar P p' s n'.
+Proof.
+  intros HP p s n H. induction H as [|p s1 s2 n H1 _ IH]; intros p' n'; [constructor|].
+  constructor; [eapply HP; exact H1|apply IH].
+Qed.
+
+Lemma LPow_ctx (P : lang) : (forall p s n p' n', P p s n -> P p' s n') ->
+  forall k p s n p' n', LPow P k p s n -> LPow P k p' s n'.
+Proof.
+  intros HP. induction k as [|k IH]; intros p s n p' n' H; cbn [LPow] in *; [exact H|].
+  destruct H as (s1 & s2 & E & H1 & H2). exists s1, s2. split; [exact E|].
+  split; [eapply HP; exact H1|eapply IH; exact H2].
+Qed.
+
+Theorem anchor_free_context_independent r : anchor_free r = true ->
+  forall ci p s n p' n', L ci r p s n -> L ci r p' s n'.
+Proof.
+  induction r as [| |cs|a IHa b IHb|a IHa b IHb|g a IHa|a IHa|g a IHa|g m [m'|] a IHa|a IHa|k|a IHa|a IHa];
+    intros Hf ci p s n p' n' H; cbn [anchor_free] in Hf; cbn [L] in *;
+    try (apply andb_true_iff in Hf; destruct Hf as [Hfa Hfb]).
+  - exact H.
+  - exact H.
+  - exact H.
+  - destruct H as (s1 & s2 & E & H1 & H2). exists s1, s2. split; [exact E|].
+    split; [eapply IHa; eauto|eapply IHb; eauto].
+  - destruct H as [H|H]; [left; eapply IHa; eauto|right; eapply IHb; eauto].
+  - eapply LStar_ctx; [|exact H]. intros; eapply IHa; eauto.
+  - destruct H as (k & Hk & H). exists k. split; [exact Hk|].
+    eapply LPow_ctx; [|exact H]. intros; eapply IHa; eauto.
+  - destruct H as [H|H]; [left; exact H|right; eapply IHa; eauto].
+  - destruct H as (k & Hk & H). exists k. split; [exact Hk|].
+    eapply LPow_ctx; [|exact H]. intros; eapply IHa; eauto.
+  - destruct H as (k & Hk & H). exists k. split; [exact Hk|].
+    eapply LPow_ctx; [|exact H]. intros; eapply IHa; eauto.
+  - eapply IHa; eauto.
+  - discriminate.
+  - eapply IHa; eauto.
+  - eapply IHa; eauto.
+Qed.
+
+Theorem ci_eq_fold c d : ci_eq true c d <-> fold c = fold d.
+Proof. unfold ci_eq. split; [intros [->|[_ H]]; [reflexivity|exact H]|intros H; right; auto]. Qed.
+
+Theorem ci_eq_false c d : ci_eq false c d <-> c = d.
+Proof. unfold ci_eq. split; [intros [H|[H _]]; [exact H|discriminate]|auto]. Qed.
+
+(* ------------------------------------------------------------------------------------------ *)
 (** * Non-vacuity: the statements above on concrete values *)
 
 (** (: bol ($ (+ (or #\a #\b))) (w/nocase ($ (repeated 1 2 #\c))) eol)  on the second line of "x\nabCc" *)
@@ -515,6 +628,9 @@ Example ex_check : check_spans ex_sre ex_str [Some (2, 6); Some (2, 4); Some (4,
                 /\ check_spans ex_sre ex_str [Some (2, 6); Some (2, 5); Some (4, 6)]%nat = false
                 /\ check_spans ex_sre ex_str [Some (2, 6); Some (1, 4); Some (4, 6)]%nat = false.
 Proof. vm_compute. repeat split; reflexivity. Qed.
+Example ex_fold_spans : fold_spans (Plus (Chr (CsRange 97 98))) ex_str = Some [(2, 4)]%nat
+                     /\ fold_spans (Star true (Chr (CsChar 97))) [98; 97; 97; 98] = Some [(0, 0); (1, 3); (3, 3)]%nat.
+Proof. vm_compute. split; reflexivity. Qed.
 Example ex_fold : fold 67 = fold 99 /\ cs_mem true (CsRange 97 100) 67 = true
                   /\ cs_mem false (CsRange 97 100) 67 = false.
 Proof. vm_compute. repeat split; reflexivity. Qed.
